@@ -26,8 +26,9 @@ Enforce == IOEnv.ENFORCE
 (* memo: what earlier calls on the SAME source returned (History: output is a function of the input). *)
 (* It is reset whenever the source changes; the driver keeps calls on one source adjacent.             *)
 (* ph: the `phase` hook events of the current call (Generator.tla names the phases).                    *)
-VARIABLES l, cur, nj, nbad, memo, ph
-vars == <<l, cur, nj, nbad, memo, ph>>
+(* hk: the per-step hook events of the current call (scan, walk, visit), for the refinement check.    *)
+VARIABLES l, cur, nj, nbad, memo, ph, hk
+vars == <<l, cur, nj, nbad, memo, ph, hk>>
 PhaseSeq == << "parsed", "validated", "bind_group_data", "stages", "structs", "assembled" >>
 
 Chk(ok, msg) == IF ok THEN {} ELSE {msg}
@@ -538,6 +539,29 @@ C18(c, o) ==
                  \cup (IF Has(o, "repeat_same") THEN Chk(o.repeat_same, "repeated calls in one process returned different text") ELSE {}),
        m |-> MPut(m, k, RetSig(o)) ]
 
+(* ------------------------------------------------------------------ refinement of the operational models (DRIFT, not a property) *)
+HkOf(kind) == SelectSeq(hk, LAMBDA e : e.ev = kind)
+ScanPrefix(S) ==
+  LET d == Decls(S)
+      dups == BGD!DupIdx(d)
+      n == IF dups = {} THEN Len(d) ELSE BGD!Min(dups)
+  IN [ i \in 1 .. n |-> << Resources(S)[i].group, Resources(S)[i].binding >> ]
+CONF(c, o) ==
+  IF ~(HasS(c) /\ ParseOk(o) /\ o.ret.kind # "panic" /\ ~ValidatorRejects(c, o)) THEN NoVerdict ELSE
+  LET S == c.S
+      scans == [ i \in DOMAIN HkOf("bgd.scan") |-> << HkOf("bgd.scan")[i].group, HkOf("bgd.scan")[i].binding >> ]
+      walks == [ i \in DOMAIN HkOf("stage.walk") |-> HkOf("stage.walk")[i].fn ]
+      model == Run(S, StInit(S), CodeParams(TRUE))
+  IN [ dom |-> TRUE, fails |->
+       Chk(scans = ScanPrefix(S), "DRIFT scan order " \o ToJson(scans) \o " differs from the declaration-order scan of BindGroupData.tla " \o ToJson(ScanPrefix(S)))
+       \cup Chk((Len(HkOf("bgd.density")) = 1) = ~BGD!HasDup(Decls(S)), "DRIFT density test executed = " \o Str(Len(HkOf("bgd.density"))) \o " with duplicates = " \o Str(BGD!HasDup(Decls(S))))
+       \cup (IF RetOk(o) THEN
+               Chk(walks = model.log, "DRIFT function walks " \o ToJson(walks) \o " differ from Stages.tla " \o ToJson(model.log))
+               \cup Chk([ i \in DOMAIN HkOf("stage.entry") |-> HkOf("stage.entry")[i].entry ] = [ i \in DOMAIN S.entries |-> S.entries[i].name ], "DRIFT entry order")
+               \cup Chk(Len(HkOf("types.visit")) = TC!RunClosure(S, TRUE).work, "DRIFT type visits " \o Str(Len(HkOf("types.visit"))) \o " but TypeClosure.tla makes " \o Str(TC!RunClosure(S, TRUE).work))
+               \cup Chk(o.work[1] = model.walks /\ o.work[3] = TC!RunClosure(S, TRUE).work, "DRIFT work counters " \o ToJson(o.work) \o " vs model walks " \o Str(model.walks))
+             ELSE {}) ]
+
 (* ------------------------------------------------------------------ dispatch *)
 Judge0(c, o) ==
   CASE Enforce = "C11" -> C11(c, o)
@@ -551,6 +575,7 @@ Judge0(c, o) ==
     [] Enforce = "C01" -> C01(c, o)
     [] Enforce = "C10" -> C10(c, o)
     [] Enforce = "C02" -> C02(c, o)
+    [] Enforce = "CONF" -> CONF(c, o)
     [] Enforce = "C04" -> C04(c, o)
     [] Enforce = "C14" -> C14(c, o)
     [] Enforce = "C07" -> C07(c, o)
@@ -569,22 +594,23 @@ Judge(c, o) ==
 
 Emit1(c, m) == PrintT("VERDICT " \o ToJson([ prop |-> (IF Enforce = "C05S" THEN "C05" ELSE IF Enforce = "C07W" THEN "C07" ELSE Enforce), id |-> c.id, family |-> c.family, msg |-> m ]))
 
-Init == l = 1 /\ cur = [ id |-> "", has_s |-> FALSE ] /\ nj = 0 /\ nbad = 0 /\ memo = [ sha |-> "", m |-> << >> ] /\ ph = << >>
+Init == l = 1 /\ cur = [ id |-> "", has_s |-> FALSE ] /\ nj = 0 /\ nbad = 0 /\ memo = [ sha |-> "", m |-> << >> ] /\ ph = << >> /\ hk = << >>
         /\ TLCSet(1, 0) /\ TLCSet(2, 0)
 
 Step ==
   /\ l <= Len(Rec)
   /\ l' = l + 1
   /\ LET e == Rec[l] IN
-     CASE e.ev = "case" -> cur' = e /\ ph' = << >> /\ UNCHANGED <<nj, nbad, memo>>
+     CASE e.ev = "case" -> cur' = e /\ ph' = << >> /\ hk' = << >> /\ UNCHANGED <<nj, nbad, memo>>
+       [] e.ev \in {"bgd.scan", "bgd.density", "stage.entry", "stage.walk", "types.visit"} -> hk' = Append(hk, e) /\ UNCHANGED <<cur, nj, nbad, memo, ph>>
        [] e.ev = "sched" ->
             (* the recorded order of turns must be the exported interleaving (a subsequence of it when a
                call finished early and its remaining turns were skipped) *)
             LET ok == IsSubSeq(e.order, e.schedule) /\ (Len(e.order) = Len(e.schedule) => e.order = e.schedule)
             IN /\ (IF ok THEN TRUE ELSE PrintT("VERDICT " \o ToJson([ prop |-> Enforce, id |-> e.id, family |-> "sched", msg |-> "HOOK recorded interleaving is not the exported schedule" ])))
                /\ nbad' = nbad + (IF ok THEN 0 ELSE 1) /\ TLCSet(2, nbad')
-               /\ UNCHANGED <<cur, nj, memo, ph>>
-       [] e.ev = "phase" -> ph' = (IF e.name \in Range(PhaseSeq) THEN Append(ph, e.name) ELSE ph) /\ UNCHANGED <<cur, nj, nbad, memo>>
+               /\ UNCHANGED <<cur, nj, memo, ph, hk>>
+       [] e.ev = "phase" -> ph' = (IF e.name \in Range(PhaseSeq) THEN Append(ph, e.name) ELSE ph) /\ UNCHANGED <<cur, nj, nbad, memo, hk>>
        [] e.ev = "obs" ->
             LET r == Judge(cur, e) IN
             /\ \A m \in r.fails : Emit1(cur, m)
@@ -592,8 +618,8 @@ Step ==
             /\ nbad' = nbad + Cardinality(r.fails)
             /\ TLCSet(1, nj') /\ TLCSet(2, nbad')
             /\ memo' = [ sha |-> cur.src_sha, m |-> r.m ]
-            /\ UNCHANGED <<cur, ph>>
-       [] OTHER -> UNCHANGED <<cur, nj, nbad, memo, ph>>
+            /\ UNCHANGED <<cur, ph, hk>>
+       [] OTHER -> UNCHANGED <<cur, nj, nbad, memo, ph, hk>>
 
 Spec == Init /\ [][Step]_vars
 
